@@ -180,17 +180,19 @@ struct InputStream {
 impl Stream for InputStream {
     type Item = u32;
     fn poll_next(mut self: Pin<&mut Self>, cx: &mut Context<'_>) -> Poll<Option<u32>> {
+        let mut just_arrived = false;
         if let Some(st) = &self.waiting {
             if !st.released.get() {
                 *st.waker.borrow_mut() = Some(cx.waker().clone());
                 return Poll::Pending;
             }
             self.waiting = None;
+            just_arrived = true;
         }
         if self.items.is_empty() {
             return if self.terminates { Poll::Ready(None) } else { Poll::Pending };
         }
-        if self.env.ch.choose(2, "arrive") == 1 {
+        if !just_arrived && self.env.ch.choose(2, "arrive") == 1 {
             // not there yet: the item arrives when the ticker says so
             let st = Rc::new(ParkState {
                 released: Cell::new(false),
